@@ -486,6 +486,13 @@ class Facts:
                 known_ = set(known_) - drop
                 self.reinlined = sorted(drop)
         self.inline_report = inline.apply(d, known_) if os.environ.get("REPE_NO_INLINE") != "1" else {"new_functions": [], "inlined": [], "skipped": []}
+        # ... and a changed reference function that newly delegates to another reference function sees that function's body
+        self.new_edges = []
+        if known_ is not None and changed and os.environ.get("REPE_NO_INLINE") != "1":
+            shapes2_ = canon.load_known() or {}
+            if "callees" in shapes2_:
+                self.new_edges = inline.inline_new_edges(d, shapes2_["callees"], canon.changed_functions(d), set(known_) | set(self.reinlined), set(self.reinlined))
+                self.inline_report["inlined"] = list(self.inline_report.get("inlined", [])) + self.new_edges
         self.devirtualised = 0
         if self.inline_report.get("inlined"):
             self.devirtualised = inline.devirtualise_polls(d, sorted({c_ for _, c_ in self.inline_report["inlined"]}))
